@@ -69,6 +69,14 @@ VERIF = os.path.dirname(HERE)
 NAMESPACE = "ScpiVerif.Gen.HeapC"
 FLAGS = ["-DUSE_MEMORY_ALLOCATION_FREE=0"]
 JOIN_IFS = True
+# SCALAR_STATE = True: scalar replacement of the state structure.  Inside a function that WRITES the state, every field of
+# `heap` lives in its own Lean variable (`heap_v_wr`, `heap_v_count`, ...: bound from the structure where the structure becomes
+# available - function entry or the `some` arm of the NULL test - and rebound by each C assignment `heap->f = e`); the structure
+# is built only at `return`, at a call of another translated function, and in the tuple of a join-if the FIELDS travel, not
+# the structure.  With `let heap_v := { heap_v with f := e }` the unfolded term of a chain of k updates grows like 3^k under
+# simp's zeta reduction (each update mentions the three other projections of its predecessor); with one variable per field
+# every `let` mentions its predecessor once.  Functions that only read the state (get_parts) keep `heap_v.f`.
+SCALAR_STATE = True
 HEAP_FUNCS = ["scpiheap_init", "scpiheap_strndup", "scpiheap_get_parts", "scpiheap_free"]
 # role of the `char *` parameters (trusted: what the callers pass)
 PTR_ROLES = {"scpiheap_init": {"error_info_heap": "buffer"}, "scpiheap_strndup": {"s": "src"},
@@ -403,6 +411,30 @@ class HeapFunc:
             self.fail(node, "use of '%s', which %s here (no dominating NULL test)" % (self.state, "may be NULL" if env.ptr[self.state] == "opt" else "is NULL"))
         return s
 
+    def scalar(self):
+        return SCALAR_STATE and self.writes_state
+
+    def fld(self, s, f):
+        """text of field f of the state value named s"""
+        return "%s_%s" % (s, f) if self.scalar() else "%s.%s" % (s, f)
+
+    def setfld(self, s, f, val):
+        if self.scalar():
+            return "let %s_%s := %s" % (s, f, val)
+        return "let %s := { %s with %s := %s }" % (s, s, f, val)
+
+    def pack(self, s):
+        """the state value named s as a structure"""
+        if not self.scalar():
+            return s
+        return "({ %s } : CHeap)" % ", ".join("%s := %s_%s" % (f, s, f) for f in self.ft.field_order)
+
+    def unpack(self, s):
+        """lines that bind the field variables of the state value named s"""
+        if not self.scalar():
+            return []
+        return ["let %s_%s := %s.%s" % (s, f, s, f) for f in self.ft.field_order]
+
     def ub(self, cond):
         self.pre.append("let ub := ub || %s" % cond)
 
@@ -438,12 +470,12 @@ class HeapFunc:
     # ---- expressions ----------------------------------------------------------------------------------------------------
     def region_len(self, region, node, env):
         if region == "heap":
-            return "%s.%s.length" % (self.need_state(node, env), self.ft.array_field)
+            return "%s.length" % self.fld(self.need_state(node, env), self.ft.array_field)
         return "%s.length" % self.src_obj(region[4:], node, env)
 
     def region_obj(self, region, node, env):
         if region == "heap":
-            return "%s.%s" % (self.need_state(node, env), self.ft.array_field)
+            return self.fld(self.need_state(node, env), self.ft.array_field)
         return self.src_obj(region[4:], node, env)
 
     def src_obj(self, nm, node, env):
@@ -626,7 +658,7 @@ class HeapFunc:
             f = n["name"]
             s = self.need_state(n, env)
             if f in ft.scalar_fields:
-                return HV("sz", "%s.%s" % (s, f), True)
+                return HV("sz", self.fld(s, f), True)
             if f == ft.array_field:
                 return HV("ptr", "0", True, region="heap", null="some")
             self.fail(n, "field '%s'" % f)
@@ -755,9 +787,9 @@ class HeapFunc:
                     self.fail(a, "state argument is not the function's own state pointer")
                 s = env.ptr[self.state]
                 if pi["nullable"]:
-                    txt = {"opt": self.ln(self.state), "none": "none"}.get(s) or "(some %s)" % self.st(env)
+                    txt = {"opt": self.ln(self.state), "none": "none"}.get(s) or "(some %s)" % self.pack(self.st(env))
                 else:
-                    txt = self.need_state(a, env)
+                    txt = self.pack(self.need_state(a, env))
                 args.append(txt)
                 if sig["writes_state"]:
                     back.append(("state", pi["nullable"]))
@@ -788,6 +820,7 @@ class HeapFunc:
                     self.pre.append("let %s := (%s).getD %s" % (sname, comp(i), sname))
                 else:
                     self.pre.append("let %s := %s" % (sname, comp(i)))
+                self.pre += self.unpack(sname)
             else:
                 _, target, nullable = b
                 self.pre.append("let %s := %s" % (target, "(%s).getD %s" % (comp(i), target) if nullable else comp(i)))
@@ -840,7 +873,7 @@ class HeapFunc:
         comps = []
         if self.writes_state:
             s = env.ptr[self.state]
-            comps.append({"plain": self.ln(self.state), "opt": self.ln(self.state), "none": "none"}.get(s) or "some %s_v" % self.ln(self.state))
+            comps.append({"plain": self.pack(self.ln(self.state)), "opt": self.ln(self.state), "none": "none"}.get(s) or "some %s" % self.pack(self.ln(self.state) + "_v"))
         for nm in self.params:
             pi = self.pinfo[nm]
             if pi["role"] == "cell" and pi["written"]:
@@ -1083,11 +1116,11 @@ class HeapFunc:
             f = lhs["name"]
             if f in ft.scalar_fields:
                 v = self.as_sz(v, node)
-                return ["let %s := { %s with %s := %s }" % (s, s, f, v.text)]
+                return [self.setfld(s, f, v.text)]
             if f == ft.array_field:
                 if v.kind != "buffer":
                     self.fail(node, "store into %s->%s of something that is not the buffer parameter" % (self.state, f))
-                return ["let %s := { %s with %s := %s }" % (s, s, f, v.text)]
+                return [self.setfld(s, f, v.text)]
             self.fail(lhs, "field")
         if k == "ArraySubscriptExpr":
             la = self.local_array(lhs, env)
@@ -1144,8 +1177,8 @@ class HeapFunc:
         s = self.need_state(node, env)
         b = self.byte_lit(v, node)
         f = self.ft.array_field
-        self.ub("decide (%s.%s.length ≤ %s)" % (s, f, off))
-        return ["let %s := { %s with %s := %s.%s.set (%s) %s }" % (s, s, f, s, f, off, b)]
+        self.ub("decide (%s.length ≤ %s)" % (self.fld(s, f), off))
+        return [self.setfld(s, f, "%s.set (%s) %s" % (self.fld(s, f), off, b))]
 
     def do_memcpy(self, n, env):
         if len(n["inner"]) != 4:
@@ -1158,9 +1191,9 @@ class HeapFunc:
         s = self.need_state(n, env)
         f = self.ft.array_field
         m = self.fresh("m_")
-        self.pre.append("let %s := memcpy %s.%s %s %s %s %s" % (m, s, f, d.p(), self.region_obj(sp.region, n, env), sp.p(), cnt.p()))
+        self.pre.append("let %s := memcpy %s %s %s %s %s" % (m, self.fld(s, f), d.p(), self.region_obj(sp.region, n, env), sp.p(), cnt.p()))
         self.pre.append("let ub := ub || %s.2" % m)
-        return ["let %s := { %s with %s := %s.1 }" % (s, s, f, m)]
+        return [self.setfld(s, f, "%s.1" % m)]
 
     def do_memset(self, n, env):
         if len(n["inner"]) != 4:
@@ -1173,9 +1206,9 @@ class HeapFunc:
         s = self.need_state(n, env)
         f = self.ft.array_field
         m = self.fresh("m_")
-        self.pre.append("let %s := memset %s.%s %s %s %s" % (m, s, f, d.p(), b, cnt.p()))
+        self.pre.append("let %s := memset %s %s %s %s" % (m, self.fld(s, f), d.p(), b, cnt.p()))
         self.pre.append("let ub := ub || %s.2" % m)
-        return ["let %s := { %s with %s := %s.1 }" % (s, s, f, m)]
+        return [self.setfld(s, f, "%s.1" % m)]
 
     # ---- if -------------------------------------------------------------------------------------------------------------
     def needs_split(self, c, env):
@@ -1226,8 +1259,11 @@ class HeapFunc:
             sname = self.st(env) if st else None
             if st and sname is None:
                 self.fail(s, "the state is written where '%s' may be NULL" % self.state)
+            def stnames(sn):
+                return [self.fld(sn, f) for f in self.ft.field_order] if self.scalar() else [sn]
+            nst = len(stnames(sname)) if st else 0
             def comp_names(e):
-                res = [sname] if st else []
+                res = stnames(sname) if st else []
                 for ent in ents:
                     if ent[0] == "sz":
                         res.append(ent[1])
@@ -1246,7 +1282,7 @@ class HeapFunc:
                 names.append(nmx.split()[-1] if nmx.startswith("some ") else nmx)
             for ent in ents:
                 if ent[0] == "ptr" and env.ptr[ent[1]] != "some":
-                    names[(1 if st else 0) + ents.index(ent)] = self.opt_name(ent[1])
+                    names[nst + ents.index(ent)] = self.opt_name(ent[1])
             j = self.fresh("j_")
             def tup(e):
                 c = comp_names(e)
@@ -1277,6 +1313,8 @@ class HeapFunc:
             e_some.ptr[key], e_none.ptr[key] = "some", "none"
             if head_line: out.append(head_line)
             some_l = self.stmts(tl if pos else el, e_some, kk, ind2 + 1)
+            if key == self.state:
+                some_l = ["  " * (ind2 + 1) + l for l in self.unpack(self.val_name(key))] + some_l
             none_l = self.stmts(el if pos else tl, e_none, kk, ind2 + 1)
             arms = [("| some %s =>" % self.val_name(key), some_l, pos), ("| none =>", none_l, not pos)]
             if not pos:
@@ -1332,7 +1370,8 @@ class HeapFunc:
             if self.ret != "void":
                 raise Unsupported("%s: control reaches the end of a non-void function" % self.name)
             return ["  " * d + self.ret_tuple(e, None)]
-        body = ["  let ub := false"] + self.stmts(self.body.get("inner", []), env, end, 1)
+        entry = ["  " + l for l in self.unpack(self.ln(self.state))] if (self.state and env.ptr.get(self.state) == "plain") else []
+        body = ["  let ub := false"] + entry + self.stmts(self.body.get("inner", []), env, end, 1)
         proto = self.ft.text(self.fn, upto=self.body)
         doc = ["/-- `%s`" % proto]
         res = []
